@@ -535,7 +535,9 @@ def _check_overwrite_error(
   checkpoint_files = [
     os.path.join(dir_path, c)
     for c in checkpoint_files
-    if c.match(f'{prefix}*') and not c.match(f'*{MP_ARRAY_POSTFIX}')
+    if c.match(f'{prefix}*')
+    and not c.match(f'*{MP_ARRAY_POSTFIX}')
+    and not c.match(f'*{ocp.utils.TMP_DIR_SUFFIX}*')
   ]
   if ckpt_path in checkpoint_files:
     raise errors.InvalidCheckpointError(ckpt_path, step)
